@@ -126,16 +126,16 @@ fn gen_with(tier: &str, seed: u64, heavy_scripts: bool, emit: &mut dyn FnMut(Str
         // removes, many requests for one PID, alternating insert / remove
         for v in 0..(if big { 24 } else { 6 }) {
             let pool = pid_pool(&mut rng, 3);
-            let n = *rng.pick(&[255usize, 256, 257, 300, 513]);
+            let n = if v % 6 == 5 { *rng.pick(&[8191usize, 8192, 8193, 9000]) } else { *rng.pick(&[255usize, 256, 257, 300, 513]) };
             let mut acts: Vec<String> = vec![];
-            match v % 3 {
+            match (if n > 7000 { 1 + v % 2 } else { v % 3 }) {
                 0 => { for k in 0..n { acts.push(format!("i{}.R", 0x400 + k)); } for k in 0..n { if k % 2 == 0 { acts.push(format!("r{}", 0x400 + k)); } } }
                 1 => { for k in 0..n { acts.push(format!("i{}.{}", pool[1], if k % 2 == 0 { "R" } else { "P" })); } }
                 _ => { for k in 0..n { if k % 2 == 0 { acts.push(format!("i{}.R", pool[1])); } else { acts.push(format!("r{}", pool[1])); } } acts.push(format!("i{}.P", pool[2])); }
             }
             let scripts = format!("{}={}", pool[0], acts.join(","));
             let mut pk: Vec<Vec<u8>> = vec![rand_packet(&mut rng, pool[0], 0, 0)];
-            for k in [0x400u16, 0x401, 0x402, 0x400 + n as u16 - 1, pool[1], pool[2], pool[0]] { pk.push(rand_packet(&mut rng, k, 0, 0)); }
+            for k in [0x400u16, 0x401, 0x402, (0x400 + n - 1).min(0x1ffe) as u16, pool[1], pool[2], pool[0]] { pk.push(rand_packet(&mut rng, k, 0, 0)); }
             let chunks: Vec<Vec<u8>> = vec![pk.concat()];
             emit(dmx_case(0, &scripts, &chunks));
         }
